@@ -7,8 +7,8 @@ EXTENDS Naturals, Sequences, FiniteSets, TLC
 
 CONSTANTS MaxN, KeySpace(_), MaxKeys, MaxW, SizeChoices, SubtractDeviant
 
-VARIABLES w, sizes, n, raw, jds, i, todo, added, phase
-vars == <<w, sizes, n, raw, jds, i, todo, added, phase>>
+VARIABLES w, sizes, n, raw, jds, i, todo, added, phase, runs
+vars == <<w, sizes, n, raw, jds, i, todo, added, phase, runs>>
 
 RECURSIVE SumSeq(_)
 SumSeq(s) == IF s = <<>> THEN 0 ELSE Head(s) + SumSeq(Tail(s))
@@ -22,30 +22,36 @@ Init ==
     /\ \E T \in 1..2 : /\ w \in Dists(T)
                        /\ sizes \in [1..T -> SizeChoices]
     /\ n \in 1..MaxN
-    /\ raw = <<>> /\ jds = <<>> /\ i = 0 /\ todo = 0 /\ added = <<>> /\ phase = "draw"
+    /\ raw = <<>> /\ jds = <<>> /\ i = 0 /\ todo = 0 /\ added = <<>> /\ phase = "draw" /\ runs = 1
 
 (* random.choices(keys, weights, k=N): each draw returns a key of positive weight *)
 Draw == /\ phase = "draw" /\ Len(raw) < n
         /\ \E key \in {k \in DOMAIN w : w[k] > 0} : raw' = Append(raw, key)
-        /\ UNCHANGED <<w, sizes, n, jds, i, todo, added, phase>>
+        /\ UNCHANGED <<w, sizes, n, jds, i, todo, added, phase, runs>>
 StartRepair == /\ phase = "draw" /\ Len(raw) = n
                /\ jds' = raw /\ phase' = "repair" /\ i' = 1 /\ added' = [k \in 1..K |-> 0]
                /\ todo' = (sizes[1] - (ColSum(raw, 1) % sizes[1])) % sizes[1]
-               /\ UNCHANGED <<w, sizes, n, raw>>
+               /\ UNCHANGED <<w, sizes, n, raw, runs>>
 (* j = random.randrange(0, len(jds)); t[i] += 1 *)
 Patch == /\ phase = "repair" /\ todo > 0
          /\ \E j \in 1..n :
                jds' = [jds EXCEPT ![j][i] = IF SubtractDeviant /\ @ > 0 THEN @ - 1 ELSE @ + 1]
          /\ todo' = todo - 1 /\ added' = [added EXCEPT ![i] = @ + 1]
-         /\ UNCHANGED <<w, sizes, n, raw, i, phase>>
+         /\ UNCHANGED <<w, sizes, n, raw, i, phase, runs>>
 NextTopology == /\ phase = "repair" /\ todo = 0
                 /\ IF i < K
                    THEN /\ i' = i + 1 /\ phase' = phase
                         /\ todo' = (sizes[i + 1] - (ColSum(jds, i + 1) % sizes[i + 1])) % sizes[i + 1]
                    ELSE /\ phase' = "done" /\ i' = i /\ todo' = 0
-                /\ UNCHANGED <<w, sizes, n, raw, jds, added>>
-Next == Draw \/ StartRepair \/ Patch \/ NextTopology
+                /\ UNCHANGED <<w, sizes, n, raw, jds, added, runs>>
+(* history: the distribution held by the loader object is replaced and the object is sampled again *)
+NewRun == /\ phase = "done"
+          /\ w' \in {d \in Dists(Len(sizes)) : d # w}
+          /\ raw' = <<>> /\ jds' = <<>> /\ i' = 0 /\ todo' = 0 /\ added' = <<>> /\ phase' = "draw" /\ runs' = runs + 1
+          /\ UNCHANGED <<sizes, n>>
+Next == Draw \/ StartRepair \/ Patch \/ NextTopology \/ NewRun
 Spec == Init /\ [][Next]_vars
+RunBound == runs <= 2
 
 (* -------------------------------- properties -------------------------------- *)
 Done == phase = "done"
